@@ -25,9 +25,9 @@ type vfGrid struct {
 }
 
 func (g *vfGrid) Dimensions(console.Dimension) (uint32, uint32) { return g.w, g.h }
-func (g *vfGrid) DefaultColors() (uint8, uint8)                { return 7, 0 }
-func (g *vfGrid) Palette() color.Palette                       { return nil }
-func (g *vfGrid) SetPaletteColor(uint8, color.RGBA)            {}
+func (g *vfGrid) DefaultColors() (uint8, uint8)                 { return 7, 0 }
+func (g *vfGrid) Palette() color.Palette                        { return nil }
+func (g *vfGrid) SetPaletteColor(uint8, color.RGBA)             {}
 func (g *vfGrid) Write(ch byte, fg, bg uint8, x, y uint32) {
 	if x < 1 || x > g.w || y < 1 || y > g.h {
 		return
@@ -282,6 +282,7 @@ func Verif_C18_vt_grid_sync() { vfVTStep(true) }
 
 // vfVTVgaStep: the same step lemma with the real VgaTextConsole as the attached console.
 // Cell colours are the defaults (the VT never writes anything else), so a cell word is 0x0700|char.
+//
 //verif:split 6
 func Verif_C18_vt_vga_sync() {
 	w := vfGeom([]uint32{1, 2, 3}, []uint32{1, 2, 3, 4}, "width")
